@@ -2072,7 +2072,16 @@ impl IndentedDisplay for XmlElement {
             write!(f, ">")?;
 
             let mut has_element = false;
+            let mut text = String::new();
             for child in self.children.borrow().as_slice() {
+                if let Some(t) = child.as_text() {
+                    text.push_str(t.borrow().character_code());
+                    continue;
+                }
+
+                write!(f, "{}", escape_cdata_end(text.as_str()))?;
+                text.clear();
+
                 if child.as_element().is_some() {
                     has_element = true;
                     writeln!(f)?;
@@ -2080,6 +2089,8 @@ impl IndentedDisplay for XmlElement {
 
                 child.indented(indent + 4, f)?;
             }
+
+            write!(f, "{}", escape_cdata_end(text.as_str()))?;
 
             if has_element {
                 write!(f, "\n{}", space)?;
@@ -2298,9 +2309,20 @@ impl fmt::Display for XmlElement {
         } else {
             write!(f, ">")?;
 
+            let mut text = String::new();
             for child in self.children.borrow().as_slice() {
+                if let Some(t) = child.as_text() {
+                    text.push_str(t.borrow().character_code());
+                    continue;
+                }
+
+                write!(f, "{}", escape_cdata_end(text.as_str()))?;
+                text.clear();
+
                 child.fmt(f)?;
             }
+
+            write!(f, "{}", escape_cdata_end(text.as_str()))?;
 
             write!(f, "</")?;
             if let Some(prefix) = self.prefix.as_deref() {
@@ -4384,6 +4406,12 @@ fn escape(value: &str) -> String {
     } else {
         format!("\"{}\"", value)
     }
+}
+
+/// Escapes `]]>` in a run of adjacent text items. No single item holds it, but the end of one
+/// and the start of the next may form it.
+fn escape_cdata_end(value: &str) -> String {
+    value.replace("]]>", "]]&gt;")
 }
 
 fn external_id(id: &parser::ExternalId) -> (String, Option<String>) {
